@@ -1,6 +1,6 @@
 (* C17 — simulation for an iteration node (first pass + loop of len-1 passes translated against the first pass' state). *)
 From Coq Require Import ZArith QArith List Bool Lia ZifyBool Setoid.
-Require Import QV.C17.Model QV.C17.Spec QV.C17.Proofs QV.C17.ProofsVM QV.C17.SimDefs QV.C17.ProofsTr1 QV.C17.ProofsTr2
+Require Import QV.C17.Model QV.C17.Spec QV.C17.Proofs QV.C17.ProofsVM QV.C17.SimDefs QV.C17.ProofsTr1 QV.C17.ProofsTr2 QV.C17.ProofsTr3
                QV.C17.ProofsSim1 QV.C17.ProofsSim2 QV.C17.ProofsSim3 QV.C17.ProofsSim4.
 Import ListNotations.
 Local Open Scope Z_scope.
@@ -18,6 +18,7 @@ Section sim.
   Variable Fs : list (nat * list Q).
   Hypothesis Fs_inj : keys_inj_b Fs = true.
   Variable C : nat.
+  Variable reps : bool.
 
   Lemma Idep_transfer : forall (K : nat * key -> Prop) sa sb s Ia Ib,
     (forall ch k b olds, K (ch, k) -> dp sb (ch, k) = Some (b, olds) ->
@@ -37,9 +38,9 @@ Section sim.
   Lemma Pact_transfer : forall sa sb s, (forall ch, act sb ch = act sa ch) -> Pact sa s -> Pact sb s.
   Proof. intros sa sb s H HA ch k Hk. rewrite H in Hk. auto. Qed.
 
-  Lemma sim_iter : forall body len, list_stmt Fs C body -> node_stmt Fs C (NIter body len).
+  Lemma sim_iter : forall body len, list_stmt Fs C reps body -> node_stmt Fs C reps (NIter body len).
   Proof.
-    intros body len IHL d Hok Hin st cs st' I cmds pre post s HT Hd HI HDyn Hc Hlab Hpc Hcur HA HP HD.
+    intros body len IHL d Hok Hin st cs st' I cmds pre post s HT HSt Hd HI HDyn Hc Hlab Hpc Hcur HA HP HD.
     destruct (node_ok_iter _ _ _ _ _ Hok) as (Hlen1 & Hne & HokB).
     rewrite node_factors_iter in Hin. specialize (IHL (S d) HokB Hin).
     rewrite tr_node_iter in HT. cbv zeta in HT.
@@ -62,14 +63,14 @@ Section sim.
     { intros sa sb x HS ch k b olds [_ HKc] Hdp. rewrite HS in Hdp. destruct (lb (ch, k)) as [[b0 suf]|]; [|contradiction].
       cbn in Hdp. inversion Hdp; subst. eauto. }
     (* first pass *)
-    assert (FIRST : forall post', cmds = pre ++ cs1 ++ post' ->
+    assert (FIRST : forall post', (reps = true -> t_stable st1 = true) -> cmds = pre ++ cs1 ++ post' ->
       exists s1, reach cmds s s1 /\ v_pc s1 = (length pre + length cs1)%nat /\ length (v_cur s1) = C /\
         Pact st1 s1 /\ Pplain st1 s1 /\ Idep Fs (Kof lb) st1 s1 (I ++ [0]) /\
         (forall ck, snd ck <> [] -> lb ck = None -> alookup ck_eqb ck (v_regs s1) = alookup ck_eqb ck (v_regs s)) /\
         (exists hnew, v_hist s1 = hnew ++ v_hist s /\ Forall2 hrel (rev hnew) (fst (f 0 (v_time s)))) /\
         v_time s1 = snd (f 0 (v_time s)) /\
         (forall l, l < t_label st -> alookup Z.eqb l (v_counts s1) = alookup Z.eqb l (v_counts s))).
-    { intros post' Hc'. apply (IHL stf cs1 st1 (I ++ [0]) cmds pre post' s); auto.
+    { intros post' HSt1 Hc'. apply (IHL stf cs1 st1 (I ++ [0]) cmds pre post' s); auto.
       - unfold stf; cbn. rewrite app_length; cbn. fold its. lia.
       - rewrite app_length; cbn; lia.
       - apply Forall2_app; auto. constructor; [left; auto|constructor].
@@ -92,6 +93,7 @@ Section sim.
       assert (Hpl : forall ch, oqeq (pl st2 ch) (pl st1 ch)) by (intros ch; eapply oq_stable; [apply SP1|apply SP2]).
       destruct (FIRST (CLabel idx m :: cs2 ++ CJmp idx :: post)) as
         (s1 & R1 & Pc1 & Cu1 & A1 & P1 & D1 & F1 & (h1 & Hh1 & Hr1) & T1 & Cn1).
+      { intros e. change (t_stable stl = true). eapply mono_nodes; [exact E2|]. apply (HSt e). }
       { rewrite Hc. rewrite <- !app_assoc. cbn. rewrite <- !app_assoc. reflexivity. }
       set (Pinv := fun (k : nat) (x : vm) =>
              length (v_cur x) = C /\ Pact stl x /\ Pplain stl x /\ Idep Fs (Kof lb) stl x (I ++ [Z.of_nat k + 1]) /\
@@ -111,7 +113,7 @@ Section sim.
         intros k x Hk Hpcx (X1 & X2 & X3 & X4 & X5 & (h0 & Hh0 & Hr0) & X7).
         assert (Hcb : cmds = (pre ++ cs1 ++ [CLabel idx m]) ++ cs2 ++ CJmp idx :: post).
         { rewrite Hcl. rewrite <- !app_assoc. reflexivity. }
-        destruct (IHL stl cs2 st2 (I ++ [Z.of_nat k + 1]) cmds (pre ++ cs1 ++ [CLabel idx m]) (CJmp idx :: post) x E2)
+        destruct (IHL stl cs2 st2 (I ++ [Z.of_nat k + 1]) cmds (pre ++ cs1 ++ [CLabel idx m]) (CJmp idx :: post) x E2 HSt)
           as (x' & Rx & Pcx & Cux & Ax & Px & Dx & Fx & (hx & Hhx & Hrx) & Tx & Cnx); auto.
         * cbn. rewrite app_length; cbn. fold its. lia.
         * rewrite app_length; cbn; lia.
@@ -181,7 +183,7 @@ Section sim.
       inversion HT; subst cs st'; clear HT.
       change (act stf) with (act st) in *. change (pl stf) with (pl st) in *. change (dp stf) with (dp st) in *.
       change (forall ck, dp st1 ck = orlast (dp st ck) (addits (its ++ [0]) (lb ck))) in SD1.
-      destruct (FIRST post Hc) as (s1 & R1 & Pc1 & Cu1 & A1 & P1 & D1 & F1 & (h1 & Hh1 & Hr1) & T1 & Cn1).
+      destruct (FIRST post HSt Hc) as (s1 & R1 & Pc1 & Cu1 & A1 & P1 & D1 & F1 & (h1 & Hh1 & Hr1) & T1 & Cn1).
       assert (Hl1 : len = 1) by lia.
       exists s1. split; auto. split; auto. split; auto. split; [exact A1|]. split; [exact P1|].
       split; [|split; [|split; [|split]]].
